@@ -98,6 +98,11 @@ CLAIMS = {
    note=TB+"Assumed, not decided: go list / packages.Load behave the same whatever same-package bytes the output path holds (external process).",
    technique="SMT-guided symbolic execution of go/ssa with symbolic loader/file system/parser; end-to-end regeneration replay with the built binary",
    ref="4/C12"),
+ "C03": dict(
+   text="Bounded symbolic execution of the marker planting of GenerateBaseCode with the brace and comment positions as symbolic integers (the solver decides every position comparison; the layout invariant that the printer's comment cursor needs is the obligation; counterexample layouts are rendered byte-exactly as setup files and run through the built binary; on the unchanged tree solver-chosen layouts are validated end to end), plus acceptance of every well-formed notation of the menus, of all documented-legal operand shapes and of every corpus case.",
+   note=TB+"go/printer, the regexp cut and the formatter's re-parse are not encoded: acceptance is established up to the stated layout invariant (an assumption validated end to end, not a verdict).",
+   technique="SMT-guided symbolic execution of go/ssa over symbolic source positions (LIA); end-to-end replay of rendered layouts",
+   ref="4/C03 and Part I"),
 }
 
 NA_REASON = "check under construction in this session (engine exists, harness not yet registered); see DESIGN.md section 4"
